@@ -4,5 +4,5 @@ From Coq Require Extraction ExtrOcamlBasic.
 From Verif Require Import RwInfo.RwModel RwInfo.FeatModel RwInfo.A64RwModel.
 From VerifGen Require Import C12_X86RwTables C12_A64Tables.
 Extraction Blacklist List String Int.
-Extraction "rwinfo.ml" RwModel.query_rw_info RwModel.reg_group RwModel.reg_size RwModel.optZMask RwModel.optER RwModel.kMovOp
+Extraction "rwinfo.ml" RwModel.query_rw_info RwModel.reg_group RwModel.reg_size RwModel.optZMask RwModel.optER RwModel.kMovOp RwModel.fR RwModel.fW RwModel.fRegM RwModel.fConsecutive RwModel.fZExt RwModel.fRegPhys RwModel.fMemPhys RwModel.fMemBaseRead RwModel.fMemBaseRW RwModel.fMemIndexRead RwModel.fMemIndexRW RwModel.rmFlagPextrw RwModel.rmFlagMovssMovsd RwModel.rmFlagFeatureIfRMI RwModel.kImplicitZ RwModel.kIdBad
   C12_X86RwTables.x86_tables FeatModel.query_features C12_X86RwTables.x86_feat_consts A64RwModel.a64_query_rw_info C12_A64Tables.a64_tabs.
